@@ -429,7 +429,7 @@ def subchecks(tier, seed):
 
     def snr_cases():
         for seed in seeds_:
-            for shape in ((64,), (3, 64), (2, 3, 16)):
+            for shape in ((64,), (3, 64), (2, 3, 16), (1500,), (2, 2501)):
                 for target in (-20.0, 0.0, 7.5, 40.0):
                     for axis in (None, -1):
                         yield (shape, target, axis, seed)
